@@ -9,7 +9,7 @@ def run(tier):
     ck = C.Check("C06", tier)
     failed = ck.proofs()
     n_g, n_r = (50, 10) if tier == "quick" else (2500, 40)
-    res = P.run_family(ck, n_g, n_r, p_err=0.0, want_hist=False)
+    res = P.run_family(ck, n_g, n_r, p_err=0.0, want_hist=True)
     ties = pc.tie_violations(ck, res, want_kinds=("parse", "baseline"))
     st = {"errors_checked": 0, "grammars": 0, "skipped_unproductive": 0, "eof_errors": 0, "lookahead_log_checks": 0}
     nontrivial = set()
@@ -59,6 +59,17 @@ def run(tier):
             for pr in problems:
                 ck.violation("%s; tokens %s: `%s`" % (pr, list(w), c["impl"]), {"bnf": r["text"], "op": c["line"], "impl": c["impl"],
                                                                               "prefix_oracle": pre["earley"] if pre else None})
+    # the same error reports from a parser object that has been used (and has failed) before
+    reused = 0
+    for r in res:
+        if not pc.is_lr1(r) or r["g"]["err"]:
+            continue
+        for h in r["hists"]:
+            reused += 1
+            if h["impl"] != h["fresh"]:
+                ck.violation("error reports of a reused parser differ from those of fresh parsers: history %s: reused `%s` fresh `%s`" % (h["hist"], h["impl"][:300], h["fresh"][:300]),
+                             {"bnf": r["text"], "op": h["line"], "reused": h["impl"], "fresh": h["fresh"]})
+    st["histories_on_one_parser"] = reused
     ck.proof_failures(failed, "C06 theorems")
     ck.cov.update({"evaluations": st["errors_checked"], "distinct_nontrivial": len(nontrivial),
                    "rule": "conflict-free, error-free random grammars whose non-terminals are all productive; every rejected input (exhaustive short sequences, mutated sentences) "
